@@ -36,9 +36,9 @@ def check(env, rep, tier):
     rep.configs = configs
     for cfg in configs:
         prog = env.prog(cfg)
-        neg = blockutil.fns_calling(prog, "core::cmp::min")
+        neg = blockutil.find_negotiate(prog)
         if len(neg) != 1:
-            rep.missing("C10.1", "the (unique) block size negotiation function (found %d callers of min)" % len(neg))
+            rep.missing("C10.1", "the (unique) block size negotiation function (found %d functions with the signature (Option<&BlockValue>, usize, usize, usize))" % len(neg))
             continue
         neg = neg[0]
         site = {"file": neg["span"]["f"], "line": neg["span"]["l"], "fn": neg["path"]}
@@ -211,7 +211,7 @@ def check_sites(prog, rep, R):
     measured non-payload size + reserve <= budget"""
     import blockutil
     from blockutil import Trace
-    negs = blockutil.fns_calling(prog, "core::cmp::min")
+    negs = blockutil.find_negotiate(prog)
     if len(negs) != 1:
         return
     neg = negs[0]
